@@ -44,7 +44,7 @@ func init() {
 		Rule: "case = one (path, document): systematic step-kind sequences (<=2 / <=3 kinds, with filter-function suffixes) x battery documents, then random ASTs on " +
 			"path-directed documents; for EVERY split point k (not between `..` and its operand; Q without $-rooted operand or aggregate) three real retrievals are " +
 			"compared: Retrieve(P·Q, doc) must equal the concatenation in order of Retrieve($·Q, v) for v in Retrieve(P, doc), and fail exactly when that concatenation " +
-			"is empty; additionally, at every split whose next step is a multi-name selector, a union or `..`, on every value P selects: the selector equals the concatenation of its single selectors in written order, and `..X` equals X applied to every container in pre-order (containers enumerated by the harness); no reference model involved; non-trivial = the concatenation is non-empty and P selects >= 1 value with at least one step on each side; " +
+			"is empty; additionally, at every split whose next step is a multi-name selector, a union or `..`, on every value P selects: the selector equals the concatenation of its single selectors in written order, and `..X` equals X applied to every container in pre-order (containers enumerated by the harness); one case in eight runs on the maximally shared form of its document (equal sub-containers are one map / slice); no reference model involved; non-trivial = the concatenation is non-empty and P selects >= 1 value with at least one step on each side; " +
 			"distinct = distinct (path, split, document)",
 		Assumptions: []string{"values selected by P are passed to the second retrieval as they are (shared sub-documents, not copies)"},
 		Plan: func(tier string, seed int64) *harness.Plan {
@@ -78,7 +78,7 @@ func init() {
 					runC08(c, p, doc, k%2 == 1)
 				},
 				Finish:   reportHooks,
-				Required: []string{"split:rec+multi|name", "split:rec+name|filter", "split:multi|name", "split:union|filter", "relation:nonempty", "relation:empty", "decompose:multi", "decompose:union", "decompose:rec"},
+				Required: []string{"split:rec+multi|name", "split:rec+name|filter", "split:multi|name", "split:union|filter", "relation:nonempty", "relation:empty", "decompose:multi", "decompose:union", "decompose:rec", "doc:shared-sub-containers"},
 			}
 		},
 	})
@@ -88,6 +88,14 @@ func runC08(c *harness.Ctx, p *spec.Path, doc string, useNum bool) {
 	cfg := std.Config(false)
 	whole := p.Text()
 	src := lib.Decode(doc, useNum)
+	if c.K%8 == 5 {
+		// the maximally shared form of the document: equal sub-containers are ONE map / slice, reachable along several
+		// routes (the relation speaks of the values P selects and of every container in pre-order - once per route)
+		var n int
+		if src, n = lib.HashCons(src); n > 0 {
+			c.Cover("doc:shared-sub-containers")
+		}
+	}
 	full := lib.Retrieve(whole, src, cfg)
 	if full.Panic != nil {
 		c.Violation("panic "+whole+"\x00"+doc, fmt.Sprintf("Retrieve panicked: %v", full.Panic), map[string]interface{}{"path": whole, "document": doc, "stack": full.Stack})
